@@ -61,6 +61,10 @@ reg('std_slice_to_array', ['C18'], 'prelude wrapper vf_try_into: slice->array co
     fn='vf_prelude::VfTryInto', complete=False, bound='slice <= 8 octets, N in {2,4}', secondary=['C05', 'C12'])
 
 
+reg('std_filter_map_any_bounded', ['C15'], 'prelude wrappers vf_iter_any / vf_filter_map_collect: std any() and filter_map().collect() equal the loop-based reference',
+    fn='vf_prelude::{vf_iter_any,vf_filter_map_collect}', complete=False, bound='lists of <= 3 elements', secondary=['C05'], tier='thorough')
+
+
 def harnesses_for(props, tier):
     out = []
     for h in H.values():
